@@ -16,7 +16,7 @@ For the property's harness groups (harness/<id>/spec.py) it
 Exit 0: every obligation discharged.  Exit 1 + "VIOLATION property=<id> replay=<path>":
 a counterexample that reproduces on the real build.  Exit 2: engine error / inconclusive.
 """
-import sys, os, re, json, time, glob, shutil, subprocess, tempfile, resource, importlib.util, argparse, hashlib
+import sys, os, re, json, time, glob, shutil, subprocess, tempfile, resource, importlib.util, argparse, hashlib, threading
 from concurrent.futures import ThreadPoolExecutor
 
 VERIF = os.path.dirname(os.path.dirname(os.path.abspath(__file__)))
@@ -30,7 +30,7 @@ CFG_DEFS = ['-DCPPUTEST_USE_LONG_LONG=1', '-DCPPUTEST_HAVE_STRDUP', '-DCPPUTEST_
             '-DCPPUTEST_STD_CPP_LIB_DISABLED', '-DCPPUTEST_VERIF']
 CBMC_FLAGS = ['--unwinding-assertions', '--pointer-overflow-check', '--undefined-shift-check',
               '--drop-unused-functions', '--no-malloc-may-fail', '--no-standard-checks', '--bounds-check', '--pointer-check',
-              '--div-by-zero-check', '--verbosity', '8']
+              '--div-by-zero-check', '--verbosity', '8', '--object-bits', '10']
 MEM_LIMIT = 28 * 1024 ** 3
 
 
@@ -79,6 +79,7 @@ class Build:
         self.harness = os.path.join(hdir, grp['harness'])
         self.encoded = []
         self.stats = {}
+        self.lock = threading.Lock()
 
     def cxx_inputs(self):
         extra = [os.path.join(RT, 'envinstall.cpp'), self.wrapper]
@@ -110,6 +111,8 @@ class Build:
         cmd = [LL2C, pruned, '-o', os.path.join(self.tmp, 'translated.c'), '--header', os.path.join(self.tmp, 'translated.h')]
         if self.cfg.get('nlx'):
             cmd.append('--nlx')
+        if self.cfg.get('heapcheck', True):
+            cmd.append('--heapcheck')
         for s in self.cfg.get('stubs', []):
             cmd += ['--stub', s]
         for s in self.cfg.get('entry_asserts', []):
@@ -129,10 +132,12 @@ class Build:
     def goto_for(self, defines):
         key = hashlib.md5(' '.join(defines).encode()).hexdigest()[:8]
         out = os.path.join(self.tmp, 'g_%s.goto' % key)
-        if not os.path.exists(out):
+        with self.lock:
+          if not os.path.exists(out):
             hobj = os.path.join(self.tmp, 'h_%s.goto' % key)
             sh(['goto-cc', '-DLL2C_CBMC', '-DLL2C_TRANSLATED', '-I' + RT, '-I' + self.tmp, '-I' + self.hdir] + defines + ['-c', self.harness, '-o', hobj])
-            sh(['goto-cc', os.path.join(self.tmp, 'translated.goto'), hobj, '-o', out])
+            sh(['goto-cc', os.path.join(self.tmp, 'translated.goto'), hobj, '-o', out + '.tmp'])
+            os.rename(out + '.tmp', out)
         return out
 
     # ---- native builds
@@ -165,14 +170,16 @@ class Build:
         key = hashlib.md5(' '.join(defines).encode()).hexdigest()[:8]
         tn = os.path.join(self.tmp, 'tnative_%s' % key)
         rn = os.path.join(self.tmp, 'rnative_%s' % key)
-        if not os.path.exists(rn):
+        with self.lock:
+          if not os.path.exists(rn):
             ht = os.path.join(self.tmp, 'ht_%s.o' % key)
             hr = os.path.join(self.tmp, 'hr_%s.o' % key)
             base = ['gcc', '-O1', '-g', '-w', '-c', '-I' + RT, '-I' + self.tmp, '-I' + self.hdir] + self.SAN + defines
             sh(base + ['-DLL2C_TRANSLATED', self.harness, '-o', ht])
             sh(base + [self.harness, '-o', hr])
             sh(['gcc'] + self.SAN + [self.tobj, ht, self.mobj, '-o', tn, '-lm'])
-            sh(['g++'] + self.SAN + self.robjs + [hr, self.mobj, '-o', rn, '-lpthread', '-lm'])
+            sh(['g++'] + self.SAN + self.robjs + [hr, self.mobj, '-o', rn + '.tmp', '-lpthread', '-lm'])
+            os.rename(rn + '.tmp', rn)
         return tn, rn
 
 
@@ -274,6 +281,7 @@ def get_trace(build, ob, propname):
         p = subprocess.run(cmd, stdout=subprocess.PIPE, stderr=subprocess.DEVNULL, timeout=ob.get('timeout', 300) * 2, preexec_fn=limit_mem)
         d = json.loads(p.stdout.decode('utf-8', 'replace'))
     except Exception as e:
+        log('get_trace failed: %r' % (e,))
         return None
     for e in d:
         if isinstance(e, dict) and 'result' in e:
@@ -379,6 +387,8 @@ def main():
             for b, o, f in futs:
                 r = f.result()
                 ob_results.append((b, o, r))
+                if os.environ.get('VERIF_VERBOSE'):
+                    log('   .. %s %s %.0fs' % (o['id'], r.get('verdict'), r['wall_s']))
             diffs = [f.result() for f in diff_futs]
 
         # ---- evaluate solver results
@@ -391,7 +401,9 @@ def main():
             total_props += len(props)
             wit = [p for p in props if p['desc'].startswith('WITNESS:')]
             eng = [p for p in props if p['desc'].startswith('ENGINE:') and p['status'] != 'SUCCESS']
-            bad = [p for p in props if p['status'] != 'SUCCESS' and not p['desc'].startswith('WITNESS:') and not p['desc'].startswith('ENGINE:')]
+            bad = [p for p in props if p['status'] == 'FAILURE' and not p['desc'].startswith('WITNESS:') and not p['desc'].startswith('ENGINE:')]
+            bad.sort(key=lambda p: 0 if p['desc'].startswith('P:') else 2 if 'unwinding assertion' in p['desc'] else 1)
+            unknown = [p for p in props if p['status'] not in ('SUCCESS', 'FAILURE')]
             expect_fail = o.get('expect') == 'fail'
             summ = {'obligation': oid, 'harness': o['fn'], 'bounds': o.get('bounds', ''), 'claim': o.get('claim', ''), 'unwind': o.get('unwind', 8),
                     'defines': [d for d in o['defines']], 'properties_checked': len(props), 'program_steps': r.get('program_steps'),
@@ -400,10 +412,13 @@ def main():
             if r['rc'] == 'timeout' or r.get('verdict') == 'NONE':
                 summ['status'] = 'INCONCLUSIVE'
                 engine_errors.append('%s: no verdict (%s) after %.0fs: %s' % (oid, r['rc'], r['wall_s'], r['tail'][-300:].replace('\n', ' | ')))
-            elif eng:
+            elif unknown and not bad:
+                summ['status'] = 'INCONCLUSIVE'
+                engine_errors.append('%s: %d assertions UNKNOWN' % (oid, len(unknown)))
+            elif eng and not bad:
                 summ['status'] = 'ENGINE_ERROR'
                 engine_errors.append('%s: %s' % (oid, '; '.join(p['desc'] for p in eng[:3])))
-            elif not wit or any(p['status'] != 'FAILURE' for p in wit):
+            elif not bad and (not wit or any(p['status'] != 'FAILURE' for p in wit)):
                 summ['status'] = 'VACUOUS'
                 engine_errors.append('%s: witness not reachable (vacuous harness): %s' % (oid, [p['desc'] for p in wit if p['status'] != 'FAILURE']))
             elif expect_fail:
